@@ -1860,3 +1860,35 @@ variant_multi('t-custom-mime-name-copied-by-the-caller', ['C18'], [
      "        metadata_encoding = buffer[1:1 + real_mime_type_length]"),
     ('rsocket/helpers.py', "    return metadata_encoding, offset\n", "    return bytes(metadata_encoding), offset\n")],
     kind='twin')
+
+# round 8: C12.k str() of a library exception cannot fail
+variant('b-exception-text-is-the-first-argument', ['C12'], 'rsocket/exceptions.py',
+        """class RSocketError(Exception):
+    pass
+""", """class RSocketError(Exception):
+
+    def __str__(self) -> str:
+        return self.args[0] if self.args else self.__class__.__name__
+""", ('C12.k', 'RSocketError.__str__'))
+variant('b-stream-in-use-text-is-the-stream-id', ['C12'], 'rsocket/exceptions.py',
+        """        self.stream_id = stream_id
+""", """        self.stream_id = stream_id
+
+    def __str__(self) -> str:
+        return self.stream_id
+""", ('C12.k', 'RSocketStreamIdInUse.__str__'))
+variant('t-unknown-route-text-is-the-route', ['C12'], 'rsocket/exceptions.py',
+        """        self.route_id = route_id
+""", """        self.route_id = route_id
+
+    def __str__(self) -> str:
+        return self.route_id or 'unknown route'
+""", kind='twin')
+variant('t-exception-text-names-the-class', ['C12'], 'rsocket/exceptions.py',
+        """class RSocketError(Exception):
+    pass
+""", """class RSocketError(Exception):
+
+    def __str__(self) -> str:
+        return str(self.args[0]) if self.args else self.__class__.__name__.lower()
+""", kind='twin')
